@@ -611,6 +611,8 @@ func NewStack(cfg Config) (*Stack, error) {
 	var full http.Handler = http.HandlerFunc(s.probeHandler("full"))
 	full = authboss.Middleware2(ab, authboss.RequireFullAuth, cfg.ProtFail)(full)
 	mux.Handle("/app/full", full)
+	// a conditional GET that is answered "not modified" (what http.ServeContent does for a cached asset)
+	mux.HandleFunc("/app/notmodified", func(w http.ResponseWriter, r *http.Request) { w.WriteHeader(http.StatusNotModified) })
 	mux.HandleFunc("/app/put", func(w http.ResponseWriter, r *http.Request) {
 		q := r.URL.Query()
 		authboss.PutSession(w, q.Get("k"), q.Get("v"))
